@@ -1039,6 +1039,9 @@ class Wtp:
         need_pre_expand=excluded.need_pre_expand, model=excluded.model""",
             (title, namespace_id, body, redirect_to, need_pre_expand, model),
         )
+        # get_page() results are memoized; drop them so that lookups see
+        # the page that was just added or overwritten
+        self.get_page.cache_clear()
 
     def analyze_templates(
         self,
